@@ -120,6 +120,12 @@ def run(R):
             hs.append(case_history(perms3[n % 6], e))
             if n % 5 == 0:
                 hs.append(case_history(perms3[(n // 6 + 3) % 6], e))
+    # (a') the smallest orderings: NO variable at all (constant expressions only; str(o) is then 'lambda: <root>') and one variable
+    c0, c1 = ('c', False, '0'), ('c', True, '1')
+    for e in all_exprs(2, [c0, c1]):
+        hs.append(case_history([], e))
+    for e in all_exprs(2, [('v', 1), c0, c1]):
+        hs.append(case_history([1], e))
     n_exh = len(hs) - n_corpus - len(B.LEXICAL_VARIANTS)
     # (b) depth 3 over 3 variables and depth 4 over 4 variables, sampled, mixed spellings (keywords, n-ary and/or,
     #     True/False), every sample under one random argument order (thorough: two)
